@@ -100,6 +100,7 @@ class Engine:
         self.feas_checks = 0
         self.max_paths = 20000
         self._quant_cache = {}
+        self._fmt_checked = set()
 
     # ------------------------------------------------------------------ obligations
     def oblige(self, st, name, goal, kind='post', line=None, expect='unsat', note='', props=None):
@@ -137,10 +138,11 @@ class Engine:
     def _has_quantifier(self, f):
         k = f.get_id()
         c = self._quant_cache.get(k)
-        if c is None:
-            c = '(forall' in f.sexpr() or '(exists' in f.sexpr()
+        if c is None or not c[0].eq(f):
+            sx = f.sexpr()
+            c = (f, '(forall' in sx or '(exists' in sx)   # keeps f alive: ids are not reused
             self._quant_cache[k] = c
-        return c
+        return c[1]
 
     # ------------------------------------------------------------------ truthiness / basic ops
     def truthy(self, v, st):
@@ -149,6 +151,8 @@ class Engine:
             return v
         if v is None:
             return False
+        if isinstance(v, tuple) and v and isinstance(v[0], str) and v[0] == 'mapslot':
+            return self.list_as_array(v, st)[1] > 0
         if isinstance(v, (int, float, str, bytes, tuple)):
             return bool(v)
         if is_sym(v):
